@@ -276,5 +276,342 @@ theorem promo_not_pawn {p : Pos} {m : Move} (h : pseudoLegal p m = true)
   · simp [promoPieces] at hp
   · simp at hp
 
+/-! ### 4. bits of the from-scratch leaper contributions, for any colour -/
+
+theorem knightBits {T : Tables} (hT : TablesOK T) {b : Board} (hs : Struct b) (c : Color) (k x : Sq) :
+    (T.knight k &&& b.colorCombined c &&& b.knights).getLsbD x.val = true ↔
+      b.content x = some (.knight, c) ∧ leaperAtt (b.content x) x k = true := by
+  have hs' : Struct { b with stm := c.other } := ⟨hs.1, hs.2, hs.3, hs.4⟩
+  have := knightCheck_iff hT hs' k x
+  have e : ({ b with stm := c.other } : Board).stm.other = c := Color.other_other c
+  rw [e] at this
+  exact this
+
+theorem pawnBits {T : Tables} (hT : TablesOK T) {b : Board} (hs : Struct b) (c : Color) (k x : Sq) :
+    (T.pawnAttacks c.other k &&& (b.colorCombined c &&& b.pawns)).getLsbD x.val = true ↔
+      b.content x = some (.pawn, c) ∧ leaperAtt (b.content x) x k = true := by
+  have hs' : Struct { b with stm := c.other } := ⟨hs.1, hs.2, hs.3, hs.4⟩
+  have := pawnCheck_iff hT hs' k x
+  have e : ({ b with stm := c.other } : Board).stm.other = c := Color.other_other c
+  rw [e] at this
+  exact this
+
+/-- the king square from the content -/
+theorem kingSquare_of_content {b : Board} (hs : Struct b) {c : Color} {K : Sq}
+    (h : ∀ s, b.content s = some (.king, c) ↔ s = K) :
+    b.kingSquare c = K ∧ (b.kings &&& b.colorCombined c).popcnt = 1 := by
+  have e : b.kings &&& b.colorCombined c = BB.ofSq K := by
+    apply eq_ofSq_of_bits
+    intro z
+    rw [Bool.eq_iff_iff, decide_eq_true_eq, ← h z, hs.content_some_iff, BitVec.getLsbD_and, Bool.and_eq_true]
+    exact Iff.rfl
+  unfold Board.kingSquare
+  rw [e]
+  exact ⟨toSq_ofSq K, popcnt_ofSq K⟩
+
+theorem mmLeap_bit_ne (T : Tables) (m : Move) (moved : Piece) (k : Sq) (c : Color) {x : Sq} (hx : x ≠ m.dst) :
+    (mmLeap T m moved k c).getLsbD x.val = false := by
+  have hv : x.val ≠ m.dst.val := fun e => hx (Fin.ext e)
+  have h0 : ∀ A : BB, (A &&& BB.ofSq m.dst).getLsbD x.val = false := by
+    intro A
+    rw [BitVec.getLsbD_and, BB.getLsbD_ofSq, decide_eq_false hv, Bool.and_false]
+  unfold mmLeap
+  split
+  · exact h0 _
+  · split
+    · split
+      · exact h0 _
+      · exact BitVec.getLsbD_zero
+      · exact h0 _
+    · exact BitVec.getLsbD_zero
+
+/-! ### 5. phase 3 and the assembly -/
+
+/-- phase 3 run on a board whose `pinned` is empty and whose `checkers` holds exactly the from-scratch
+leaper contributions gives a board with from-scratch `pinned` / `checkers` -/
+theorem mm3_pinOK (T : Tables) (r : Board) (k : Sq) (hp : r.pinned = 0#64)
+    (hc : r.checkers = (T.knight k &&& r.colorCombined r.stm &&& r.knights) ^^^
+      (T.pawnAttacks r.stm.other k &&& (r.colorCombined r.stm &&& r.pawns)))
+    (hk : r.kingSquare r.stm.other = k) : (mm3 T k r).PinOK T := by
+  have hpin : pinnersAt T (mm3 T k r) k = r.colorCombined r.stm &&&
+      ((T.bishopRays k &&& (r.bishops ||| r.queens)) ||| (T.rookRays k &&& (r.rooks ||| r.queens))) := by
+    show r.colorCombined r.stm.other.other &&& _ = _
+    rw [Color.other_other]
+    rfl
+  have hks : (mm3 T k r).kingSquare (mm3 T k r).stm = k := hk
+  have e1 : ((mm3 T k r).updatePinInfo T).pinned = (mm3 T k r).pinned := by
+    rw [updatePinInfo_pinned, hks, hpin]
+    show _ = (Board.sliderScan T r.combined k _ (r.pinned, r.checkers)).1
+    rw [scan_linear T r.combined k _ r.pinned r.checkers, hp, BitVec.xor_zero]
+    rfl
+  have e2 : ((mm3 T k r).updatePinInfo T).checkers = (mm3 T k r).checkers := by
+    rw [updatePinInfo_checkers, hks, hpin]
+    show _ = (Board.sliderScan T r.combined k _ (r.pinned, r.checkers)).2
+    rw [scan_linear T r.combined k _ r.pinned r.checkers, hc, BitVec.xor_assoc]
+    show _ ^^^ ((T.knight k &&& r.colorCombined r.stm.other.other &&& r.knights) ^^^
+      (T.pawnAttacks r.stm.other k &&& (r.colorCombined r.stm.other.other &&& r.pawns))) = _
+    rw [Color.other_other]
+    rfl
+  unfold Board.PinOK
+  rw [updatePinInfo_eq, e1, e2]
+
+/-- the man that arrives on the destination, as a piece kind -/
+def finalMan (m : Move) (pc : Piece) : Piece :=
+  match m.promo with
+  | some q => if pc = .pawn then q else pc
+  | none => pc
+
+theorem applyMoved_final {p : Pos} {m : Move} {pc : Piece} {c : Color} (hs : p.board m.src = some (pc, c)) :
+    applyMoved p m = some (finalMan m pc, c) := by
+  rw [applyMoved_eq hs]
+  unfold finalMan
+  cases m.promo with
+  | none => rfl
+  | some q =>
+    by_cases h : pc = .pawn
+    · simp only [if_pos h]
+    · simp only [if_neg h]
+
+/-- the leaper contribution of `make_move_new` against the from-scratch one, at the destination square:
+a pure case analysis on the moved man -/
+theorem mmLeap_bit_dst (T : Tables) (m : Move) (pc : Piece) (k : Sq) (c : Color)
+    (hq : ∀ q, pc = .pawn → m.promo = some q → q ≠ .pawn) (A B : Bool)
+    (hA : A = (T.knight k).getLsbD m.dst.val) (hB : B = (T.pawnAttacks c.other k).getLsbD m.dst.val) :
+    (mmLeap T m pc k c).getLsbD m.dst.val =
+      ((A && true && decide (Piece.knight = finalMan m pc)) ^^ (B && (true && decide (Piece.pawn = finalMan m pc)))) := by
+  have h1 : ∀ X : BB, (X &&& BB.ofSq m.dst).getLsbD m.dst.val = X.getLsbD m.dst.val := by
+    intro X
+    rw [BitVec.getLsbD_and, BB.getLsbD_ofSq_self, Bool.and_true]
+  unfold mmLeap finalMan
+  by_cases hk : pc = .knight
+  · subst hk
+    rw [if_pos rfl, h1, ← hA]
+    cases m.promo <;> simp
+  · rw [if_neg hk]
+    by_cases hp : pc = .pawn
+    · subst hp
+      rw [if_pos rfl]
+      cases hpr : m.promo with
+      | none =>
+        simp only
+        rw [h1, ← hB]
+        simp
+      | some q =>
+        have := hq q rfl hpr
+        cases q <;> simp only [if_pos] <;> first
+          | exact absurd rfl this
+          | (rw [h1, ← hA]; simp)
+          | (rw [BitVec.getLsbD_zero]; simp)
+    · rw [if_neg hp, BitVec.getLsbD_zero]
+      cases m.promo with
+      | none => simp only; cases pc <;> first | exact absurd rfl hk | exact absurd rfl hp | simp
+      | some q => simp only [if_neg hp]; cases pc <;> first | exact absurd rfl hk | exact absurd rfl hp | simp
+
+/-- **the incrementally maintained `pinned` / `checkers` of `make_move_new` are the from-scratch ones.**
+Hypotheses on the position before the move: the move is pseudo-legal, the two side conditions of C02
+(`EpSane`, `RightsSane`), the opponent has exactly one king and is not in check. -/
+theorem makeMove_pinOK {T : Tables} (hT : TablesOK T) {b : Board} (hc : Core T b) {m : Move}
+    (hpl : pseudoLegal b.abs m = true) (hep : b.abs.EpSane) (hrs : b.abs.RightsSane)
+    (hk1 : count b.abs (· == (.king, b.stm.other)) = 1) (hnc : inCheck b.abs b.stm.other = false)
+    {b' : Board} (h : b.makeMoveNew T m = some b') : b'.PinOK T := by
+  obtain ⟨pc, hsrc, hdc⟩ := pseudoLegal_src hpl
+  have hS : b.content m.src = some (pc, b.stm) := hsrc
+  have hpo : b.pieceOn m.src = some pc := pieceOn_of_content hc.toStruct hS
+  obtain ⟨b'', hmk, hcore', hcont', _, _, _⟩ := make_move_refines hT hc hpl hep hrs
+  rw [h] at hmk
+  injection hmk with hmk
+  subst hmk
+  rw [makeMoveNew_eq, hpo] at h
+  injection h with h
+  -- the two intermediate boards
+  have hshape := Closure.pseudoLegal_shape hpl
+  have hstm1 : (mm1 T b m pc).stm = b.stm := mm1_stm T b m pc
+  have hstm2 : (mm2 T b.stm b.ep m pc (mm1 T b m pc)).stm = b.stm := by
+    rw [(mm2_fields T b.stm b.ep m pc (mm1 T b m pc)).1, hstm1]
+  have hpl2 : SamePl (mm2 T b.stm b.ep m pc (mm1 T b m pc)) b' := by
+    rw [← h]; exact ((mm3_fields T _ _).1).symm
+  have hs2 : Struct (mm2 T b.stm b.ep m pc (mm1 T b m pc)) := hpl2.struct_iff.mpr hcore'.toStruct
+  have hcont2 : (mm2 T b.stm b.ep m pc (mm1 T b m pc)).content = (apply b.abs m).board := by
+    rw [hpl2.content_eq]; exact hcont'
+  obtain ⟨hbase, hbc⟩ := moveBase_core hc hS hdc
+  have hpl1 : SamePl (mm1 T b m pc) (moveBase T b pc m.src m.dst b.stm (b.pieceOn m.dst)) := mm1_pl T b m pc
+  have hs1 : Struct (mm1 T b m pc) := hpl1.struct_iff.mpr hbase.toStruct
+  -- the opponent's king
+  have hkpop : (b.kings &&& b.colorCombined b.stm.other).popcnt = 1 := by
+    exact (hc.toStruct.count_piece_color .king b.stm.other).symm.trans hk1
+  have hKAt : KingAt b.abs b.abs.stm.other (b.kingSquare b.stm.other) := kingAt hc.toStruct hkpop
+  have hKb : b.abs.board (b.kingSquare b.stm.other) = some (.king, b.abs.stm.other) := (hKAt _).mpr rfl
+  have hKd : b.kingSquare b.stm.other ≠ m.dst := by
+    intro e; rw [e] at hKb; exact dst_not_king hk1 hnc hshape hKb
+  have hK1 : (mm1 T b m pc).kingSquare b.stm.other = b.kingSquare b.stm.other := by
+    refine (kingSquare_of_content hs1 ?_).1
+    intro s
+    rw [hpl1.content_eq, hbc]
+    constructor
+    · intro hh
+      by_cases h1 : s = m.dst
+      · rw [if_pos h1] at hh
+        injection hh with hh; injection hh with _ hh
+        exact absurd hh.symm (Color.other_ne b.stm)
+      · rw [if_neg h1] at hh
+        by_cases h2 : s = m.src
+        · rw [if_pos h2] at hh; cases hh
+        · rw [if_neg h2] at hh
+          exact (hKAt s).mp hh
+    · intro e
+      subst e
+      have h2 : b.kingSquare b.stm.other ≠ m.src := by
+        intro e; rw [e] at hKb
+        have : b.abs.board m.src = some (pc, b.stm) := hsrc
+        rw [this] at hKb
+        injection hKb with hKb; injection hKb with _ hKb
+        exact Color.other_ne b.stm hKb.symm
+      rw [if_neg hKd, if_neg h2]
+      exact hKb
+  have hK2 : (mm2 T b.stm b.ep m pc (mm1 T b m pc)).kingSquare b.stm.other = b.kingSquare b.stm.other := by
+    refine (kingSquare_of_content hs2 ?_).1
+    intro s
+    rw [hcont2]
+    exact kingAt_apply hk1 hnc hshape hKAt s
+  have hksq : mmKsq (mm1 T b m pc) = b.kingSquare b.stm.other := by
+    show (mm1 T b m pc).kingSquare (mm1 T b m pc).stm.other = _
+    rw [hstm1]; exact hK1
+  rw [hksq] at h
+  -- phase 2 leaves the leaper contribution
+  obtain ⟨hck2, hpn2⟩ := mm2_checkers T b.stm b.ep m pc (mm1 T b m pc)
+  obtain ⟨hck1, hpn1⟩ := mm1_checkers T b m pc
+  rw [hck1, BitVec.zero_xor, hksq, hstm1] at hck2
+  rw [hpn1] at hpn2
+  rw [← h]
+  refine mm3_pinOK T _ _ hpn2 ?_ (by rw [hstm2]; exact hK2)
+  rw [hck2, hstm2]
+  -- bit by bit
+  have hdst : (mm2 T b.stm b.ep m pc (mm1 T b m pc)).content m.dst = some (finalMan m pc, b.stm) := by
+    rw [hcont2, apply_board_dst, applyMoved_final hsrc]
+    rfl
+  apply BitVec.eq_of_getLsbD_eq
+  intro i hi
+  have hN := knightBits hT hs2 b.stm (b.kingSquare b.stm.other) ⟨i, hi⟩
+  have hP := pawnBits hT hs2 b.stm (b.kingSquare b.stm.other) ⟨i, hi⟩
+  rw [BitVec.getLsbD_xor]
+  by_cases hx : (⟨i, hi⟩ : Sq) = m.dst
+  · have hi' : i = m.dst.val := congrArg Fin.val hx
+    subst hi'
+    obtain ⟨hpb, hcb, _⟩ := bits_of_content_some hs2 hdst
+    rw [BitVec.getLsbD_and, BitVec.getLsbD_and, BitVec.getLsbD_and, BitVec.getLsbD_and]
+    have e1 : ((mm2 T b.stm b.ep m pc (mm1 T b m pc)).colorCombined b.stm).getLsbD m.dst.val = true := by
+      have := hcb b.stm; rw [decide_eq_true rfl] at this; exact this
+    have e2 : (mm2 T b.stm b.ep m pc (mm1 T b m pc)).knights.getLsbD m.dst.val =
+        decide (Piece.knight = finalMan m pc) := hpb .knight
+    have e3 : (mm2 T b.stm b.ep m pc (mm1 T b m pc)).pawns.getLsbD m.dst.val =
+        decide (Piece.pawn = finalMan m pc) := hpb .pawn
+    rw [e1, e2, e3]
+    exact mmLeap_bit_dst T m pc _ b.stm
+      (fun q hp hq => by subst hp; exact promo_not_pawn hpl hsrc hq) _ _ rfl rfl
+  · rw [mmLeap_bit_ne T m pc _ b.stm hx]
+    have hKb' : b.abs.board (b.kingSquare b.stm.other) = some (.king, b.abs.stm.other) := hKb
+    have n1 : (T.knight (b.kingSquare b.stm.other) &&&
+        (mm2 T b.stm b.ep m pc (mm1 T b m pc)).colorCombined b.stm &&&
+        (mm2 T b.stm b.ep m pc (mm1 T b m pc)).knights).getLsbD i = false := by
+      apply bool_false_of_not
+      intro hh
+      obtain ⟨a1, a2⟩ := hN.mp hh
+      rw [a1] at a2
+      rw [hcont2] at a1
+      exact hx (leaper_only_dst hk1 hnc hshape hKb' (.inl rfl) a1 a2)
+    have n2 : (T.pawnAttacks b.stm.other (b.kingSquare b.stm.other) &&&
+        ((mm2 T b.stm b.ep m pc (mm1 T b m pc)).colorCombined b.stm &&&
+        (mm2 T b.stm b.ep m pc (mm1 T b m pc)).pawns)).getLsbD i = false := by
+      apply bool_false_of_not
+      intro hh
+      obtain ⟨a1, a2⟩ := hP.mp hh
+      rw [a1] at a2
+      rw [hcont2] at a1
+      exact hx (leaper_only_dst hk1 hnc hshape hKb' (.inr rfl) a1 a2)
+    rw [n1, n2]
+    rfl
+
+/-! ### 6. a board is determined by its position, `Core` and `PinOK` -/
+
+theorem pbit_iff_content {b : Board} (hs : Struct b) (q : Piece) (s : Sq) :
+    (b.pieces q).getLsbD s.val = true ↔ ∃ c, b.content s = some (q, c) := by
+  constructor
+  · intro h
+    have hcomb : b.combined.getLsbD s.val = true := (hs.comb_piece s.val).mpr ⟨q, h⟩
+    rcases hs.color_of_comb s.val hcomb with hw | hb
+    · exact ⟨.white, (hs.content_some_iff s q .white).mpr ⟨h, hw⟩⟩
+    · exact ⟨.black, (hs.content_some_iff s q .black).mpr ⟨h, hb⟩⟩
+  · rintro ⟨c, h⟩
+    exact ((hs.content_some_iff s q c).mp h).1
+
+theorem cbit_iff_content {b : Board} (hs : Struct b) (c : Color) (s : Sq) :
+    (b.colorCombined c).getLsbD s.val = true ↔ ∃ q, b.content s = some (q, c) := by
+  rw [← colorAt_iff_cbit hs, colorAt_iff, abs_board]
+
+theorem bb_ext_sq {x y : BB} (h : ∀ s : Sq, x.getLsbD s.val = true ↔ y.getLsbD s.val = true) : x = y := by
+  apply BitVec.eq_of_getLsbD_eq
+  intro i hi
+  rw [Bool.eq_iff_iff]
+  exact h ⟨i, hi⟩
+
+theorem placementHash_congr (T : Tables) {b₁ b₂ : Board} (h : b₁.content = b₂.content) :
+    placementHash T b₁ = placementHash T b₂ := by
+  unfold placementHash
+  congr 1
+  funext acc s
+  rw [keyAt_content, keyAt_content, h]
+
+/-- two boards with consistent bitboards, from-scratch hash and from-scratch pin / check caches that
+describe the same position are equal, field by field -/
+theorem board_determined {T : Tables} {b₁ b₂ : Board} (hc₁ : Core T b₁) (hc₂ : Core T b₂)
+    (hp₁ : b₁.PinOK T) (hp₂ : b₂.PinOK T) (hcont : b₁.content = b₂.content) (hstm : b₁.stm = b₂.stm)
+    (hw : b₁.wcr = b₂.wcr) (hb : b₁.bcr = b₂.bcr) (he : b₁.ep = b₂.ep) : b₁ = b₂ := by
+  have hs₁ := hc₁.toStruct
+  have hs₂ := hc₂.toStruct
+  have hpieces : ∀ q, b₁.pieces q = b₂.pieces q := by
+    intro q
+    apply bb_ext_sq
+    intro s
+    rw [pbit_iff_content hs₁, pbit_iff_content hs₂, hcont]
+  have hcolors : ∀ d, b₁.colorCombined d = b₂.colorCombined d := by
+    intro d
+    apply bb_ext_sq
+    intro s
+    rw [cbit_iff_content hs₁, cbit_iff_content hs₂, hcont]
+  have hcomb : b₁.combined = b₂.combined := by
+    apply BitVec.eq_of_getLsbD_eq
+    intro i hi
+    have e1 := hs₁.content_none_iff ⟨i, hi⟩
+    have e2 := hs₂.content_none_iff ⟨i, hi⟩
+    rw [hcont] at e1
+    simp only at e1 e2
+    cases h1 : b₁.combined.getLsbD i <;> cases h2 : b₂.combined.getLsbD i <;> simp_all
+  have hhash : b₁.hash = b₂.hash := by
+    rw [hc₁.hash, hc₂.hash, placementHash_congr T hcont]
+  -- `b₂` is `b₁` with other caches; `update_pin_info` does not read the caches
+  have e : b₂ = { b₁ with pinned := b₂.pinned, checkers := b₂.checkers } :=
+    Board.ext_fields (fun q => (hpieces q).symm) (fun d => (hcolors d).symm) hcomb.symm hstm.symm hw.symm hb.symm
+      rfl rfl hhash.symm he.symm
+  have hu : b₂.updatePinInfo T = b₁.updatePinInfo T := by
+    rw [e]; rfl
+  unfold Board.PinOK at hp₁ hp₂
+  rw [← hp₁, ← hp₂, hu]
+
+theorem board_determined_abs {T : Tables} {b₁ b₂ : Board} (hc₁ : Core T b₁) (hc₂ : Core T b₂)
+    (hp₁ : b₁.PinOK T) (hp₂ : b₂.PinOK T) (h : b₁.abs = b₂.abs) : b₁ = b₂ := by
+  have hcont : b₁.content = b₂.content := congrArg Pos.board h
+  have hstm : b₁.stm = b₂.stm := congrArg Pos.stm h
+  have hk : ∀ c, (b₁.castleRights c).ks = (b₂.castleRights c).ks := fun c => congrFun (congrArg Pos.castleK h) c
+  have hq : ∀ c, (b₁.castleRights c).qs = (b₂.castleRights c).qs := fun c => congrFun (congrArg Pos.castleQ h) c
+  have hcr : ∀ c, b₁.castleRights c = b₂.castleRights c := by
+    intro c
+    have h1 := hk c; have h2 := hq c
+    revert h1 h2
+    cases b₁.castleRights c; cases b₂.castleRights c
+    intro h1 h2
+    simp only at h1 h2
+    rw [h1, h2]
+  exact board_determined hc₁ hc₂ hp₁ hp₂ hcont hstm (hcr .white) (hcr .black) (congrArg Pos.ep h)
+
 end PinStep
 end Chess
